@@ -409,6 +409,38 @@ func (e *Engine) havocLocation(st *State, env *SpecEnv, m Clause) (err error) {
 		}
 		return nil
 	}
+	if strings.HasPrefix(txt, "fields(") {
+		// the fields of the object itself (not what they reach)
+		inner, perr := parseSpecExpr(txt[7 : len(txt)-1])
+		if perr != nil {
+			return perr
+		}
+		v := env.eval(inner)
+		if _, isIf := v.T.Underlying().(*types.Interface); isIf {
+			n, ok := v.L[0].IntLit()
+			if !ok {
+				e.havocState(st, v)
+				return nil
+			}
+			dt := e.typeOfTag(n.Int64())
+			if dt == nil {
+				return nil
+			}
+			v = Val{T: dt, L: []Term{v.L[1]}}
+			st.decorate(&v)
+		}
+		if v.P == nil {
+			return fmt.Errorf("fields(): not a pointer")
+		}
+		_, _, t := pathRange(v.P.Root, v.P.Path)
+		fresh := st.freshVal(t, st.ctx.freshName("hv!fields"))
+		st.boundRefs(fresh)
+		if st.curInstr != nil {
+			st.frameCheck(st.curInstr, v.P)
+		}
+		st.storePtr(v.P, fresh)
+		return nil
+	}
 	if strings.HasPrefix(txt, "state(") {
 		// everything reachable from the (dynamic) value of an interface or pointer
 		inner, perr := parseSpecExpr(txt[6 : len(txt)-1])
